@@ -1159,6 +1159,33 @@ theorem export_meets_spec_after_any_history (R : Repairs) (hI : R.ignoreProj = t
   rw [(export_history_free R hS g h op).1]
   exact pure_meets_spec R hI g op hr
 
+/-! ## `Grid.antimeridian_face_indices` -/
+
+/-- **antimeridian_getter_history_free**: the property reads no cache cell — whatever conversions were made
+    before (any exporter, any projection of any central longitude, cached or not, with or without the repairs),
+    it returns the faces that cross for the grid's own longitudes (`p = 0`), i.e. by `antimeridian_iff` exactly
+    the faces with a boundary segment spanning ≥ 180°, the same list as on a new grid, in increasing order. -/
+theorem antimeridian_getter_history_free {β} (R : Repairs) (g : G) (h : List (Op β)) :
+    amGetter g (run R g St.init h).1 = amGetter g (St.init : St β) ∧
+    amGetter g (run R g St.init h).1 = (List.range g.n).filter (g.am 0) ∧
+    (amGetter g (run R g St.init h).1).Pairwise (· < ·) := by
+  refine ⟨rfl, rfl, ?_⟩
+  exact (pairwise_range g.n).filter _
+
+/-- three faces, face 0 over the antimeridian, face 1 over the seam of projection 3 (central longitude ≠ 0) -/
+def gSeam : G :=
+  { n := 3, am := fun p i => if p = 3 then i == 1 else i == 0, nan := fun _ _ => false,
+    pieces := fun _ _ => 1 }
+
+/-- **regression witness** (seeded change C15g): a getter that reuses the exporters' side table returns, after a
+    conversion with a projection whose seam is elsewhere, the faces crossing THAT seam — a result that depends on
+    the history and is not the set of faces with a ≥ 180° segment. -/
+theorem asis_getter_reusing_side_table_depends_on_history :
+    amGetterReusing gSeam (run .current gSeam (St.init : St Nat) [.gridGdf ⟨.exclude, 3, 0⟩ true false]).1
+      ≠ amGetter gSeam (St.init : St Nat) ∧
+    amGetter gSeam (run .current gSeam (St.init : St Nat) [.gridGdf ⟨.exclude, 3, 0⟩ true false]).1 = [0] := by
+  decide
+
 /-! ## witnesses: non-vacuity, and what the code without the repairs gets wrong -/
 
 /-- three faces: face 0 crosses the antimeridian (two pieces when split), projection 1 loses
